@@ -131,6 +131,8 @@ def pick_desc(rng, ctx, allow_bad=True):
         return "bad", enc(pools.bad_game(rng))
     if r < 0.48:
         return "nosol", enc(pools.nosol_game(rng))
-    if r < 0.56:
+    if r < 0.54:
         return "rand", enc(pools.rand_game(rng))
+    if r < 0.58:
+        return "tiny", enc(pools.tiny_game(rng))
     return "stopping", enc(pools.stopping_game(rng))
